@@ -150,6 +150,8 @@ class Path:
         self.solver.set("timeout", timeout_ms)
         self.zcache = {}
         self.seen_atoms = set()
+        self.log_atoms = []
+        self.exp_atoms = []
         self.vcs = []
         self.ghost = {}
         self.fresh = 0
@@ -178,7 +180,16 @@ class Path:
 
     def _atom_facts(self, a):
         if a.kind == "app" and a.name == "Exp":
-            self.solver.add(alg.atom_to_z3(a, self.zcache) > 0)
+            e = alg.atom_to_z3(a, self.zcache)
+            arg = alg.to_z3(a.args[0], self.zcache)
+            if z3.is_int(arg):
+                arg = z3.ToReal(arg)
+            # exp > 0, exp 0 = 1, strictly increasing through 0
+            self.solver.add(e > 0, z3.Implies(arg > 0, e > 1), z3.Implies(arg < 0, e < 1), z3.Implies(arg == 0, e == 1))
+            # log(exp y) = y, instantiated against every Log atom on the path: A == exp(y) -> log(A) == y
+            self.exp_atoms.append((e, arg))
+            for (le, larg) in self.log_atoms:
+                self.solver.add(z3.Implies(larg == e, le == arg))
         elif a.kind == "sym" and a.name.startswith("log") and a.name[3:].isdigit():
             import math
 
@@ -192,6 +203,9 @@ class Path:
                 arg = z3.ToReal(arg)
             # term-directed instances of: log 1 = 0, log strictly increasing through 1
             self.solver.add(z3.Implies(arg == 1, e == 0), z3.Implies(arg > 1, e > 0), z3.Implies(z3.And(arg > 0, arg < 1), e < 0))
+            self.log_atoms.append((e, arg))
+            for (ee, earg) in self.exp_atoms:
+                self.solver.add(z3.Implies(arg == ee, e == earg))
         elif a.kind == "app" and a.name == "BigSum":
             # a sum of products of exponentials / even powers is >= 0, and > 0 over a non-empty index range
             dep = a.args[1]
@@ -203,6 +217,8 @@ class Path:
                 self.solver.add(e >= 0)
                 if strictly:
                     self.solver.add(z3.Implies(n > 0, e > 0))
+            # an empty sum is zero
+            self.solver.add(z3.Implies(alg.to_z3(a.args[2], self.zcache) <= 0, alg.atom_to_z3(a, self.zcache) == 0))
         elif a.kind == "app" and a.name == "LGamma":
             e = alg.atom_to_z3(a, self.zcache)
             arg = alg.to_z3(a.args[0], self.zcache)
@@ -1040,7 +1056,7 @@ class Interp:
         """Call a repository function: by contract when one is registered (modular), else by executing its body."""
         if self.registry is not None and not force_inline:
             h = self.registry.call_contracts.get(fi.qualname)
-            if h is not None and not (self.call_stack and self.call_stack[0] == fi.qualname and len(self.call_stack) == 1 and self.registry.top_level_inline):
+            if h is not None:
                 return h(self, args, kwargs, node)
         if self.depth >= self.inline_depth + 12:
             raise Unsupported("inline depth exceeded at %s" % fi.qualname)
